@@ -43,6 +43,7 @@ type c16Case struct {
 	CfgPad     int    `json:"cfgpad"`     // bytes of comment lines before the first section of the configuration file
 	NoDBFalse  bool   `json:"nodbfalse"`  // --no-database=false is given: must behave as if the switch were absent
 	Dollar     bool   `json:"dollar"`     // the file names contain $HOME / ${USER}: they are names, not references
+	NowStyle   int    `json:"nowstyle,omitempty"` // how the Now entry of the configuration file is written: 0 midnight Z, 1 01:30+02:00, 2 22:30-05:00, 3 midnight +00:00
 	CfgStyle   int    `json:"cfgstyle,omitempty"` // layout of the configuration file: 0 plain, 1 lower case with blanks, 2 CRLF, 3 quoted values, 4 comments and indentation
 	DepthMul   int    `json:"depthmul,omitempty"` // >1: the four distinguishable depth values are 1..4 times this factor (depths far above the default)
 }
@@ -59,6 +60,16 @@ func c16Pick(s c16Src, hasCfg bool, def int) (val int, level string) {
 		return s.Cfg, "config"
 	}
 	return def, "default"
+}
+
+// c16TodayDay: the day a source value of the current-date setting stands for; value 4 is 0001/01/01, the first day of the
+// calendar (and the zero value of the program's time type: it must not be taken for "not given"). NowStyle writes the
+// configuration entry with a zone offset whose UTC reading falls on the neighbouring day.
+func c16TodayDay(base, idx int) int {
+	if idx == 4 {
+		return vZeroDay
+	}
+	return base + idx
 }
 
 func c16BookText(k int) string {
@@ -193,8 +204,12 @@ func checkC16(c c16Case, ctx *vCtx) *vFailure {
 		kv("DateFormat", c16Formats[c.Fmt.Cfg])
 	}
 	if c.Today.Cfg != 0 {
-		y, m, d := vCivil(60 + c.Today.Cfg)
-		kv("Now", fmt.Sprintf("%04d-%02d-%02dT00:00:00Z", y, m, d))
+		y, m, d := vCivil(c16TodayDay(60, c.Today.Cfg))
+		clock := "T00:00:00Z"
+		if c.Today.Cfg != 4 {
+			clock = []string{"T00:00:00Z", "T01:30:00+02:00", "T22:30:00-05:00", "T00:00:00+00:00"}[c.NowStyle%4]
+		}
+		kv("Now", fmt.Sprintf("%04d-%02d-%02d%s", y, m, d, clock))
 	}
 	if c.Depth.Cfg != 0 {
 		section("Resolver")
@@ -262,7 +277,7 @@ func checkC16(c c16Case, ctx *vCtx) *vFailure {
 		env["HR_MAXDEPTH"] = depthText(c.Depth.Env)
 	}
 	if c.Today.Flag != 0 {
-		flag("today", vFmtDay(40+c.Today.Flag, layout))
+		flag("today", vFmtDay(c16TodayDay(40, c.Today.Flag), layout))
 	}
 	if c.NoDatabase {
 		global = append(global, "--no-database")
@@ -433,12 +448,12 @@ func checkC16(c c16Case, ctx *vCtx) *vFailure {
 		}
 		switch todayLevel {
 		case "flag":
-			if so.Today != vFmtDay(40+todayIdx, layout) {
-				return vFailSig(c16Sig(c), "%s: stats shows today = %q, expected %s from the flag", desc, so.Today, vFmtDay(40+todayIdx, layout))
+			if so.Today != vFmtDay(c16TodayDay(40, todayIdx), layout) {
+				return vFailSig(c16Sig(c), "%s: stats shows today = %q, expected %s from the flag", desc, so.Today, vFmtDay(c16TodayDay(40, todayIdx), layout))
 			}
 		case "config":
-			if so.Today != vFmtDay(60+todayIdx, layout) {
-				return vFailSig(c16Sig(c), "%s: stats shows today = %q, expected %s from the configuration file", desc, so.Today, vFmtDay(60+todayIdx, layout))
+			if so.Today != vFmtDay(c16TodayDay(60, todayIdx), layout) {
+				return vFailSig(c16Sig(c), "%s: stats shows today = %q, expected %s from the configuration file (the date as written there)", desc, so.Today, vFmtDay(c16TodayDay(60, todayIdx), layout))
 			}
 		default:
 			now := time.Now().UTC()
@@ -462,7 +477,7 @@ func checkC16(c c16Case, ctx *vCtx) *vFailure {
 			sel := run("-b", "today", "-e", "today", "csv", "log")
 			wantRows := 0
 			for _, d := range []int{41, 43} {
-				if d == base+todayIdx {
+				if d == c16TodayDay(base, todayIdx) && !(todayLevel == "config" && (c.NowStyle%4 == 1 || c.NowStyle%4 == 2)) { // an instant inside the day is on no record
 					wantRows++
 				}
 			}
@@ -520,6 +535,7 @@ func genC16(t *rapid.T) c16Case {
 	if c.Channel != "none" && c.Channel != "default" {
 		c.CfgMissing = rapid.IntRange(0, 9).Draw(t, "missing") == 0
 	}
+	c.NowStyle = rapid.IntRange(0, 3).Draw(t, "nowstyle")
 	if rapid.Bool().Draw(t, "cfgstyled") {
 		c.CfgStyle = rapid.IntRange(1, 4).Draw(t, "cfgstyle")
 	}
@@ -620,6 +636,16 @@ func c16EnumSpace() []c16Case {
 		for style := 1; style <= 4; style++ {
 			out = append(out, c16Case{Channel: ch, DecoyFood: true, CfgStyle: style, Book: c16Src{Cfg: 3}, Log: c16Src{Cfg: 2}, Fmt: c16Src{Cfg: 2}, Depth: c16Src{Cfg: 2}, Today: c16Src{Cfg: 1}})
 			out = append(out, c16Case{Channel: ch, DecoyFood: true, CfgStyle: style, Dollar: true, Book: c16Src{Cfg: 1, Env: 2}, Log: c16Src{Cfg: 4}, Fmt: c16Src{Cfg: 4, Flag: 1}, Depth: c16Src{Cfg: 4}})
+		}
+	}
+	// the current date: the first day of the calendar from flag and from the file; file entries written with a zone offset
+	for _, ch := range channels {
+		out = append(out, c16Case{Channel: ch, DecoyFood: true, Today: c16Src{Flag: 4}})
+		out = append(out, c16Case{Channel: ch, DecoyFood: true, Today: c16Src{Cfg: 4}})
+		out = append(out, c16Case{Channel: ch, DecoyFood: true, Today: c16Src{Flag: 4, Cfg: 2}})
+		for ns := 1; ns <= 3; ns++ {
+			out = append(out, c16Case{Channel: ch, DecoyFood: true, Today: c16Src{Cfg: 1}, NowStyle: ns})
+			out = append(out, c16Case{Channel: ch, DecoyFood: true, Today: c16Src{Cfg: 3}, NowStyle: ns, Fmt: c16Src{Cfg: 2}})
 		}
 	}
 	// depths far above the default, from every source
